@@ -7,6 +7,10 @@ claimed = {
    text="Every interleaving (up to the stated preemption bound) of call issue, frame write, reply arrival, local/remote close and connection break, crossed with a cut at every byte offset of request and reply stream and a hostile-reply alphabet, is executed on the real code under a controlled scheduler; hangs are decided exactly as deadlocks of the closed system, double completion as an escaped panic or a second delivery.",
    note="Trusted base: vinstr rewrite + shims (vsync/vatomic/vnet) + the bounded scenario set; raw protocol, 1 call in flight in quick tier.",
    technique="stateless model checking of the implementation: DFS over schedules with preemption bound + exhaustive fault-offset enumeration"),
+ "C07": dict(category="model_checking", design="DESIGN.md §3 C07",
+   text="All operation histories up to depth 4 (quick) / 5 (thorough) over accept, hook reject, colliding and fresh SetID, call, local close, remote close, cut and peer close are executed on real peers and the lifecycle/index invariants are evaluated in every quiescent state; all interleavings (preemption bound 2/3) of Close against remote close, cut, a second Close and of colliding SetIDs are explored with a status observer.",
+   note="Trusted base: vinstr + shims; 2-3 connections; no redial; dial path covered by C13.",
+   technique="explicit-state enumeration of operation histories on the implementation + stateless schedule exploration with preemption bound and happens-before state caching"),
 }
 pending = {}
 for i in range(1, 21):
